@@ -58,6 +58,12 @@ def service_cases(tier, inst):
                 if tier == "quick" and li > 0 and ui in (2, 6, 8, 9, 10):
                     continue
                 yield {"streams": ms, "zones": labels, "uset": ui, "inst": list(inst)}
+    # problems of realistic size (10-40 streams) x every utility set
+    for ms in P.crowds(inst, 4, dts=(1,)):
+        for ui in range(len(usets)):
+            yield {"streams": ms, "zones": ["A"] * len(ms), "uset": ui, "inst": list(inst)}
+            if ui in (0, 3, 6):
+                yield {"streams": ms, "zones": [["A", "B"][i % 2] for i in range(len(ms))], "uset": ui, "inst": list(inst)}
     # unit-operation targeting on: every stream is its own operation zone
     for ms in P.stream_multisets(inst, 4, 2, cps=(1, 2), dts=(1,), iso=True, min_n=2):
         for ui in (0, 3, 5):
@@ -134,7 +140,7 @@ SUBCHECKS = {
         describe="pinch_analysis_service: utility duties on every Direct Integration and Total Process record",
         rule="case = stream multiset x zone labels x 7 utility sets; non-trivial = >=2 utilities on one side receive duty in some zone",
         cases=service_cases, run=service_run,
-        bound=lambda t: ("multisets <=2 (K=4, dt=d/2) x (one zone x 12 utility sets + two zones x 7 sets)" if t == "quick" else "multisets <=3 (K=4) x <=2 zones x 12 utility sets")
+        bound=lambda t: ("multisets <=2 (K=4, dt=d/2) x (one zone x 14 utility sets + two zones x 9 sets) + 7 problems of 10-40 streams x 14 sets" if t == "quick" else "multisets <=3 (K=4) x <=2 zones x 14 utility sets + 7 problems of 10-40 streams")
         + " + pairs with unit-operation targeting on x 3 sets",
     ),
 }
